@@ -472,6 +472,197 @@ pub fn dense_start(st: &AnyState, steps: u64, seed: u64) -> Option<AnyState> {
     r.ok().and_then(|d| AnyState::from_json(&d).ok())
 }
 
+/// Delegating State that feeds the explorer's event stream (parameter vector = the six numbers
+/// of the serialised state).
+pub struct Recorder<S: State> {
+    pub inner: S,
+    pub events: Arc<Mutex<Vec<crate::mcx::Event>>>,
+}
+impl<S: State> Clone for Recorder<S> {
+    fn clone(&self) -> Self {
+        Recorder { inner: self.inner.clone(), events: self.events.clone() }
+    }
+}
+impl<S: State> std::fmt::Debug for Recorder<S> {
+    fn fmt(&self, f: &mut std::fmt::Formatter) -> std::fmt::Result {
+        self.inner.fmt(f)
+    }
+}
+impl<S: State> Serialize for Recorder<S> {
+    fn serialize<Z: Serializer>(&self, s: Z) -> Result<Z::Ok, Z::Error> {
+        self.inner.serialize(s)
+    }
+}
+impl<S: State> PartialEq for Recorder<S> {
+    fn eq(&self, o: &Self) -> bool {
+        self.inner == o.inner
+    }
+}
+impl<S: State> Eq for Recorder<S> {}
+impl<S: State> PartialOrd for Recorder<S> {
+    fn partial_cmp(&self, o: &Self) -> Option<std::cmp::Ordering> {
+        self.inner.partial_cmp(&o.inner)
+    }
+}
+impl<S: State> Ord for Recorder<S> {
+    fn cmp(&self, o: &Self) -> std::cmp::Ordering {
+        self.inner.cmp(&o.inner)
+    }
+}
+impl<S: State> ToSVG for Recorder<S> {
+    type Value = Document;
+    fn as_svg(&self) -> Document {
+        self.inner.as_svg()
+    }
+}
+impl<S: State> State for Recorder<S> {
+    fn score(&self) -> Option<f64> {
+        let s = self.inner.score();
+        let doc = serde_json::to_value(&self.inner).unwrap_or(Value::Null);
+        let p = params_of_json(&doc).as_vec();
+        self.events.lock().unwrap().push(crate::mcx::Event::Score(p, s, 0));
+        s
+    }
+    fn generate_basis(&self) -> Vec<StandardBasis> {
+        self.inner.generate_basis()
+    }
+    fn total_shapes(&self) -> usize {
+        self.inner.total_shapes()
+    }
+    fn as_positions(&self) -> Result<String, anyhow::Error> {
+        self.inner.as_positions()
+    }
+}
+
+/// A complete real run (the crate's own seeded generator, nothing scripted), observed: every
+/// score() call with the six parameters it saw, and every tagged draw.
+pub fn observed_real_run(st: &AnyState, cfg: &Cfg, seed: u64) -> crate::mcx::Obs {
+    let events: Arc<Mutex<Vec<crate::mcx::Event>>> = Arc::new(Mutex::new(vec![]));
+    let ev2 = events.clone();
+    verif_hooks::install(Some(Box::new(move |draw, real| {
+        ev2.lock().unwrap().push(crate::mcx::Event::Drew(draw, real));
+        real
+    })));
+    let mut builder = cfg.builder();
+    builder.seed(seed);
+    let ev3 = events.clone();
+    let res = panic::catch_unwind(AssertUnwindSafe(|| {
+        let opt = builder.build();
+        fn go<S: State>(opt: &packing::MCOptimiser, s: &S, events: Arc<Mutex<Vec<crate::mcx::Event>>>) -> (Vec<f64>, Option<f64>) {
+            let out = opt.optimise_state(Recorder { inner: s.clone(), events: events.clone() });
+            verif_hooks::install(None);
+            let n = events.lock().unwrap().len();
+            let sc = out.inner_score();
+            events.lock().unwrap().truncate(n);
+            let doc = serde_json::to_value(&out).unwrap_or(Value::Null);
+            (params_of_json(&doc).as_vec(), sc)
+        }
+        match st {
+            AnyState::Poly(s) => go(&opt, s, ev3),
+            AnyState::Mol(s) => go(&opt, s, ev3),
+            AnyState::Lj(s) => go(&opt, s, ev3),
+        }
+    }));
+    verif_hooks::install(None);
+    let mut obs = crate::mcx::Obs::default();
+    match res {
+        Ok((fp, fs)) => {
+            obs.final_params = Some(fp);
+            obs.final_score = Some(fs);
+        }
+        Err(p) => {
+            obs.panic = Some(if let Some(s) = p.downcast_ref::<&str>() { s.to_string() } else if let Some(s) = p.downcast_ref::<String>() { s.clone() } else { "panic".into() });
+        }
+    }
+    let evs = std::mem::replace(&mut *events.lock().unwrap(), vec![]);
+    crate::mcx::fold_events(&mut obs, evs);
+    obs
+}
+
+/// Real hard and LJ states under the crate's own generator: returns (runs, steps, failures per
+/// class) for the monitors of C05/C06/C07. Supplementary to the scripted exploration: the seeds
+/// are a sample, every step of every sampled run is judged.
+pub struct RealRuns {
+    pub runs: u64,
+    pub steps: u64,
+    pub accepted: u64,
+    pub rejected: u64,
+    pub c05: Vec<(String, Value)>,
+    pub c06: Vec<(String, Value)>,
+    pub c07: Vec<(String, Value)>,
+}
+
+pub fn real_runs(tier: Tier) -> RealRuns {
+    use crate::mcx::*;
+    let mut jobs: Vec<(String, ShapeSpec, Cfg, u64)> = vec![];
+    let shapes = [ShapeSpec::Polygon(4), ShapeSpec::Trimer(0.637556, 120., 1.), ShapeSpec::LjTrimer(0.637556, 120., 1.), ShapeSpec::LjCircle];
+    for g in GROUP_NAMES.iter() {
+        for s in shapes.iter() {
+            for (ci, cfg) in [
+                Cfg { steps: 60, inner: 20, kt_start: 0., kt_finish: Some(1e-3), kt_ratio: None, max_step: 0.05, convergence: None },
+                Cfg { steps: 60, inner: 60, kt_start: 0.2, kt_finish: None, kt_ratio: Some(0.), max_step: 0.1, convergence: None },
+                Cfg { steps: 40, inner: 10, kt_start: 0., kt_finish: None, kt_ratio: Some(0.5), max_step: 0.5, convergence: Some(1e-4) },
+            ]
+            .iter()
+            .enumerate()
+            {
+                for seed in 0..tier.pick(2u64, 8u64) {
+                    if tier == Tier::Quick && (ci + seed as usize) % 2 == 1 && *g != "p2" {
+                        continue;
+                    }
+                    jobs.push((g.to_string(), s.clone(), cfg.clone(), seed));
+                }
+            }
+        }
+    }
+    let prev_hook = panic::take_hook();
+    panic::set_hook(Box::new(|_| {}));
+    let outs = par_map(&jobs, |_, (g, s, cfg, seed)| {
+        let init = AnyState::from_group(g, s);
+        // start from a moderately dense state so that rejections and clamps occur
+        let start = dense_start(&init, 150, 3).unwrap_or(init);
+        let s_in = start.score();
+        let obs = observed_real_run(&start, cfg, *seed);
+        let an = analyse(cfg, &obs, None);
+        let case = json!({"engine": "real-run", "group": g, "shape_label": s.label(), "start": start.to_json(), "cfg": cfg.json(), "seed": seed});
+        let (mut c05, mut c06, mut c07) = (vec![], vec![], vec![]);
+        if obs.panic.is_none() {
+            if let Some(t) = an.not_derived_at {
+                c06.push((format!("{} {} seed {}: proposal {} differs in more than one parameter from every state the run could be in", g, s.label(), seed, t), case.clone()));
+            } else if an.final_mismatch {
+                c06.push((format!("{} {} seed {}: the returned state is not the state of any consistent accept/reject history", g, s.label(), seed), case.clone()));
+            } else {
+                let f7 = an.flags_all & (F_NONE_ACCEPTED | F_BETTER_REJECTED | F_WORSE_ACCEPTED_ZERO_T_FIRST | F_METROPOLIS_FIRST_LOOP | if cfg.kt_ratio.is_some() { F_WORSE_ACCEPTED_ZERO_T_LATER } else { 0 });
+                if f7 != 0 {
+                    c07.push((format!("{} {} seed {}: {} (first at step {})", g, s.label(), seed, flag_names(f7).join("; "), an.first_flag_step), case.clone()));
+                }
+                if cfg.kt_start == 0. {
+                    let f5 = an.flags_all & (F_SCORE_DECREASED | F_WORSE_ACCEPTED_ZERO_T_FIRST | F_WORSE_ACCEPTED_ZERO_T_LATER);
+                    let out_ok = match (s_in, obs.final_score) {
+                        (Some(a), Some(Some(b))) => b >= a,
+                        _ => false,
+                    };
+                    if f5 != 0 || !out_ok {
+                        c05.push((format!("{} {} seed {}: kt_start = 0 but the score went from {:?} to {:?} ({})", g, s.label(), seed, s_in, obs.final_score, flag_names(f5).join("; ")), case.clone()));
+                    }
+                }
+            }
+        }
+        (obs.proposals.len() as u64, an.accepts as u64, an.rejects as u64, c05, c06, c07)
+    });
+    panic::set_hook(prev_hook);
+    let mut r = RealRuns { runs: jobs.len() as u64, steps: 0, accepted: 0, rejected: 0, c05: vec![], c06: vec![], c07: vec![] };
+    for (n, a, j, c05, c06, c07) in outs {
+        r.steps += n;
+        r.accepted += a;
+        r.rejected += j;
+        r.c05.extend(c05);
+        r.c06.extend(c06);
+        r.c07.extend(c07);
+    }
+    r
+}
+
 pub struct Sweep {
     pub depth: usize,
     pub cap: usize,
